@@ -1,6 +1,8 @@
 //! unit: u02
 //! properties: C02 C08
 //! note: forward admission arithmetic (fee and CLTV) and the timing lemma over the extracted constants
+//! trusted: R15 (statement slicing): should_broadcast_holder_commitment_txn scans hash maps through a function-local macro_rules!; the unit extracts the go-on-chain test of scan_commitment! verbatim (both inequalities) as a function of (htlc, direction, height, preimage known); the scan itself is dropped and not claimed
+//! plemma: C08 lemma_forward_race / lemma_on_chain_heights_close_the_race: with the extracted constants and the extracted on-chain test, a silent or last-moment downstream peer never costs the upstream HTLC
 //! trusted: R15 (statement slicing): create_recv_pending_htlc_info is ~150 lines over onion payload types; the unit extracts, on every run, its three consecutive acceptance tests (final CLTV vs onion, PaymentClaimBuffer, amount) with their conditions verbatim and checks them as one function of the variables they read; the rest of the function is dropped and not claimed
 //! trusted: env: PaymentConstraints {2 fields} skeleton; BlindedHopFeatures opaque with external_body empty()/requires_unknown_bits_from() (unconstrained)
 //! trusted: env: struct UpdateAddHTLC{amount_msat,cltv_expiry}, ChannelConfig{3 fields}, PaymentRelay{3 fields} are field skeletons of the real structs; enum LocalHTLCFailureReason restricted to the 5 variants used; FundedChannel self stub (R5: the body reads no field of self)
@@ -172,5 +174,37 @@ impl BlindedHopFeatures {
 //@with
     cltv_expiry <= current_height + 1
 //@end
+
+// ---- when the monitor goes on chain for an HTLC (R15 slice of should_broadcast_holder_commitment_txn's scan_commitment! test) ----
+pub struct HTLCOutputInCommitment { pub cltv_expiry: u32, pub offered: bool }
+//@extract lightning/src/chain/channelmonitor.rs :: impl ChannelMonitorImpl :: fn should_broadcast_holder_commitment_txn
+//@rw R15
+    fn should_broadcast_holder_commitment_txn<L: Logger>($params:any) -> $ret { $p1:any macro_rules! scan_commitment { ($mp:any) => { for ref htlc in $it { let htlc_outbound = $ho; if ( htlc_outbound && $a ) || ( !htlc_outbound && $b && self.payment_preimages.contains_key(&htlc.payment_hash) ) { $x:any } } } } $q:any }
+//@with
+    fn must_go_on_chain_for(htlc: &HTLCOutputInCommitment, htlc_outbound: bool, height: u32, preimage_known: bool) -> bool {
+        ( htlc_outbound && $a ) || ( !htlc_outbound && $b && preimage_known )
+    }
+//@ret r
+//@requires
+    height <= 0x7fff_ffff, htlc.cltv_expiry <= 0x7fff_ffff,
+//@ensures P C08 monitor-goes-on-chain-a-grace-period-after-an-outbound-expiry-and-a-claim-buffer-before-an-inbound-expiry-with-known-preimage
+    r == ((htlc_outbound && height as int >= htlc.cltv_expiry + LATENCY_GRACE_PERIOD_BLOCKS)
+       || (!htlc_outbound && preimage_known && height as int >= htlc.cltv_expiry as int - CLTV_CLAIM_BUFFER as int)),
+//@mutant goes_on_chain_one_block_late_for_claimable_inbound
+    htlc.cltv_expiry <= height + CLTV_CLAIM_BUFFER
+//@with
+    htlc.cltv_expiry < height + CLTV_CLAIM_BUFFER
+//@end
+// (P, C08) with the heights above, the forwarding race of lemma_forward_race is the one the monitor really runs:
+// downstream silent => on chain at outgoing + LATENCY; upstream claimable (preimage known) => on chain from incoming - CLTV_CLAIM_BUFFER
+pub proof fn lemma_on_chain_heights_close_the_race(incoming: int, outgoing: int, delta: int)
+    requires delta >= MIN_CLTV_EXPIRY_DELTA, incoming >= outgoing + delta
+    ensures
+        // the downstream timeout path (on chain at outgoing + LATENCY, two confirmations, burial) completes a grace period before
+        // the upstream HTLC expires
+        outgoing + LATENCY_GRACE_PERIOD_BLOCKS + 2 * MAX_BLOCKS_FOR_CONF + ANTI_REORG_DELAY + LATENCY_GRACE_PERIOD_BLOCKS <= incoming,
+        // the upstream claim path starts (incoming - CLTV_CLAIM_BUFFER) no earlier than a preimage learned at the last moment downstream
+        outgoing + (LATENCY_GRACE_PERIOD_BLOCKS - 1) + LATENCY_GRACE_PERIOD_BLOCKS <= incoming - CLTV_CLAIM_BUFFER,
+{ lemma_forward_race(0, incoming, outgoing, delta); }
 }
 fn main() {}
